@@ -6,53 +6,60 @@ From Coq Require Import Permutation.
 Section Fx.
 Variable fx : fixes.
 Notation KInv := (KInv fx).
-Notation set_good := (set_good fx).
+Notation base_good := (base_good fx).
 
-(** ** invariants *)
+(** ** invariants, relative to the list [D] of sources that are in the state
+    C06-F1 / C06-F2 leave (order of rules sharing an expression, node flags): for
+    those nothing is claimed about order and flags; everything else holds for them
+    too *)
 
 (** the model state is consistent *)
-Record Inv (st : repo) : Prop := {
+Record Inv (D : list nat) (st : repo) : Prop := {
   i_k : KInv (known st);
   i_v : ReprV (index st) (routes (known st));
-  i_f : ReprF (index st) }.
+  i_f : ReprF (clean D) (index st);
+  i_bt : btuni (clean D) (routes (known st)) }.
 
-(** the known rules are the current rule sets: same rules, and per source and
-    pattern the same sequence of routes *)
-Record Rel (K : list rule) (S : sets) : Prop := {
+(** the known rules are the current rule sets: same rules, and per (clean) source
+    and pattern the same sequence of routes *)
+Record Rel (D : list nat) (K : list rule) (S : sets) : Prop := {
   r_mem : forall r, In r K <-> In (r_def r) (get_set S (r_src r));
-  r_ord : forall s q, at_q q (routes (filter (from_src s) K)) = at_q q (routes (stamp s (get_set S s))) }.
+  r_ord : forall s q, clean D s = true ->
+            at_q q (routes (filter (from_src s) K)) = at_q q (routes (stamp s (get_set S s))) }.
 
-(** the current rule sets are consistent (they were accepted, outside the guards) *)
-Record SInv (S : sets) : Prop := {
+(** the current rule sets are consistent (they were accepted) *)
+Record SInv (D : list nat) (S : sets) : Prop := {
   s_nodup : NoDup (map fst S);
   s_good : forall s ds, In (s, ds) S ->
-             set_good ds = true /\ forallb valid_expr (exprs ds) = true /\ keys_ok ds = true;
+             base_good ds = true /\ forallb valid_expr (exprs ds) = true /\ keys_ok ds = true;
+  s_f2 : forall s ds, In (s, ds) S -> clean D s = true -> f2_set ds = false;
   s_disj : forall s t ds dt p, In (s, ds) S -> In (t, dt) S -> s <> t -> In p (pats ds) -> ~ In p (pats dt) }.
 
-Lemma Inv_empty : Inv empty.
+Lemma Inv_empty D : Inv D empty.
 Proof.
   split; simpl.
   - split; simpl; try constructor; try tauto; try (intros x y q []); try (intros x y []).
   - apply ReprV_nil.
   - apply ReprF_nil.
+  - intros x y q [].
 Qed.
 
-Lemma Rel_empty : Rel [] [].
+Lemma Rel_empty D : Rel D [] [].
 Proof. split; simpl; [tauto | reflexivity]. Qed.
 
-Lemma SInv_empty : SInv [].
-Proof. split; simpl; [constructor | tauto | tauto]. Qed.
+Lemma SInv_empty D : SInv D [].
+Proof. split; simpl; [constructor | tauto | tauto | tauto]. Qed.
 
 (** ** the rules a consistent set of rule sets holds are consistent *)
 
-Lemma set_good_parts ds : set_good ds = true ->
-  negb (f2_set ds) = true /\ (fix_F4 fx = false -> negb (f4_set ds) = true) /\ negb (dupid_set ds) = true.
+Lemma base_good_parts ds : base_good ds = true ->
+  (fix_F4 fx = false -> negb (f4_set ds) = true) /\ negb (dupid_set ds) = true.
 Proof.
-  unfold SpecFacts.set_good. rewrite !andb_true_iff, orb_true_iff. intros [[A B] C]. split; [exact A|]. split; [|exact C].
+  unfold SpecFacts.base_good. rewrite !andb_true_iff, orb_true_iff. intros [B C]. split; [|exact C].
   intro F4. destruct B as [B|B]; [congruence | exact B].
 Qed.
 
-Lemma route_in_set S r x : SInv S -> In (r_def r) (get_set S (r_src r)) -> In x (routes_of r) ->
+Lemma route_in_set D S r x : SInv D S -> In (r_def r) (get_set S (r_src r)) -> In x (routes_of r) ->
   exists ds, In (r_src r, ds) S /\ In (r_def r) ds /\ In x (routes (stamp (r_src r) ds)).
 Proof.
   intros SI Hr Hx. destruct (get_set_in _ _ _ Hr) as (ds & Hds & Hd). exists ds. split; [exact Hds|]. split; [exact Hd|].
@@ -72,22 +79,22 @@ Proof.
   intro Hx. apply in_routes_stamp in Hx as (d & Hd & _ & He). unfold exprs. apply in_flat_map. exists d. tauto.
 Qed.
 
-Lemma KInv_of_sets K S : NoDup (map rkey K) -> SInv S ->
-  (forall r, In r K -> In (r_def r) (get_set S (r_src r))) -> KInv K.
+Lemma KInv_of_sets D K S : NoDup (map rkey K) -> SInv D S ->
+  (forall r, In r K -> In (r_def r) (get_set S (r_src r))) -> KInv K /\ btuni (clean D) (routes K).
 Proof.
   intros ND SI H.
   assert (Hroute : forall x, In x (routes K) ->
             exists ds, In (rt_src x, ds) S /\ In (r_def (rt_rule x)) ds /\ In x (routes (stamp (rt_src x) ds))).
   { intros x Hx. apply in_routes in Hx as (r & Hr & Hx). pose proof (routes_of_rule _ _ Hx) as E.
-    unfold rt_src. rewrite E. apply (route_in_set S r x SI (H r Hr) Hx). }
+    unfold rt_src. rewrite E. apply (route_in_set D S r x SI (H r Hr) Hx). }
   assert (Hvalid : forall x, In x (routes K) -> rpat x <> None).
   { intros x Hx. destruct (Hroute x Hx) as (ds & Hds & _ & Hxs).
-    destruct (s_good _ SI _ _ Hds) as (_ & V & _). apply (proj1 (valid_exprs_routes (rt_src x) ds) V x Hxs). }
+    destruct (s_good _ _ SI _ _ Hds) as (_ & V & _). apply (proj1 (valid_exprs_routes (rt_src x) ds) V x Hxs). }
   assert (Hsrc : srcuni (routes K)).
   { intros x y q Hx Hy Hqx Hqy.
     destruct (Hroute x Hx) as (dx & Hdx & _ & Hxs). destruct (Hroute y Hy) as (dy & Hdy & _ & Hys).
     destruct (Nat.eq_dec (rt_src x) (rt_src y)) as [E|N]; [exact E|]. exfalso.
-    apply (s_disj _ SI _ _ _ _ q Hdx Hdy N).
+    apply (s_disj _ _ SI _ _ _ _ q Hdx Hdy N).
     - apply (pats_routes (rt_src x)). exists x. tauto.
     - apply (pats_routes (rt_src y)). exists y. tauto. }
   assert (Hsame : forall x y, In x (routes K) -> In y (routes K) -> rt_src x = rt_src y ->
@@ -97,13 +104,13 @@ Proof.
     destruct (Hroute x Hx) as (dx & Hdx & Hdefx & Hxs). destruct (Hroute y Hy) as (dy & Hdy & Hdefy & Hys).
     rewrite <- Es in Hdy, Hys.
     assert (dy = dx).
-    { rewrite <- (in_get_set S _ _ (s_nodup _ SI) Hdx), <- (in_get_set S _ _ (s_nodup _ SI) Hdy). reflexivity. }
+    { rewrite <- (in_get_set S _ _ (s_nodup _ _ SI) Hdx), <- (in_get_set S _ _ (s_nodup _ _ SI) Hdy). reflexivity. }
     subst dy. exists dx. tauto. }
-  split.
+  split; [split|].
   - exact ND.
   - exact Hvalid.
   - intros F4 r Hr. destruct r as [s d]. destruct (get_set_in _ _ _ (H _ Hr)) as (ds & Hds & Hd). simpl in *.
-    destruct (s_good _ SI _ _ Hds) as (G & V & _). apply set_good_parts in G as (_ & G4 & _).
+    destruct (s_good _ _ SI _ _ Hds) as (G & V & _). apply base_good_parts in G as (G4 & _).
     rewrite def_pats_routes.
     + apply NoDup_map_Some. apply (good_f4 ds (G4 F4) d Hd).
     + intros e He. unfold valid_expr in V. rewrite forallb_forall in V.
@@ -112,17 +119,17 @@ Proof.
   - split; [exact Hsrc|].
     intros x y Hx Hy. destruct (Nat.eq_dec (rt_src x) (rt_src y)) as [Es|N].
     + destruct (Hsame x y Hx Hy Es) as (ds & Hds & _ & _ & Hxs & Hys).
-      destruct (s_good _ SI _ _ Hds) as (_ & _ & KO). rewrite keys_ok_spec in KO.
+      destruct (s_good _ _ SI _ _ Hds) as (_ & _ & KO). rewrite keys_ok_spec in KO.
       apply KO; eapply route_path_in_exprs; eassumption.
     + (* different sources: different patterns *)
       destruct (rpat y) as [p|] eqn:Ey; [|exfalso; apply (Hvalid y Hy Ey)].
       apply (kcompat_other_pat x y p Ey).
       destruct (has_pat p x) eqn:Hp; [|reflexivity]. exfalso. apply N.
       apply (Hsrc x y p Hx Hy Hp). apply has_pat_rpat. exact Ey.
-  - intros x y q Hx Hy Hqx Hqy.
+  - intros x y q Hx Hy Hqx Hqy Hc.
     pose proof (Hsrc x y q Hx Hy Hqx Hqy) as Es.
     destruct (Hsame x y Hx Hy Es) as (dx & Hdx & Hdefx & Hdefy & _ & _).
-    destruct (s_good _ SI _ _ Hdx) as (G & _ & _). apply set_good_parts in G as (G2 & _ & _).
+    assert (G2 : negb (f2_set dx) = true) by (rewrite (s_f2 _ _ SI _ _ Hdx Hc); reflexivity).
     unfold rt_bt. apply (good_f2 dx G2 _ _ Hdefx Hdefy).
     apply share_pat_spec. exists q.
     apply in_routes in Hx as (rx & _ & Hx). apply in_routes in Hy as (ry & _ & Hy).
@@ -250,7 +257,6 @@ Proof.
   - intros x Hx. apply (k_valid _ _ I). apply Incl. exact Hx.
   - intros F4 r Hr. apply filter_In in Hr as [Hr _]. apply (k_pats _ _ I F4 r Hr).
   - eapply uni_incl; [exact Incl | apply (k_uni _ _ I)].
-  - eapply btuni_incl; [exact Incl | apply (k_bt _ _ I)].
 Qed.
 
 Lemma bool_eq_iff (a b : bool) : (a = true <-> b = true) -> a = b.
@@ -264,11 +270,11 @@ Qed.
 (** ** UpdateRuleSet against the specification *)
 
 Section Update.
-Variables (st : repo) (S : sets) (s : nat) (ds : list rdef).
-Hypothesis HI : Inv st.
-Hypothesis HR : Rel (known st) S.
-Hypothesis HS : SInv S.
-Hypothesis Hgood : set_good ds = true.
+Variables (D : list nat) (st : repo) (S : sets) (s : nat) (ds : list rdef).
+Hypothesis HI : Inv D st.
+Hypothesis HR : Rel D (known st) S.
+Hypothesis HS : SInv D S.
+Hypothesis Hgood : base_good ds = true.
 
 Let K := known st.
 Let rs := stamp s ds.
@@ -278,14 +284,35 @@ Let P := fun r : rule => from_src s r && negb (mem_rule r rs).
 Let K0 := filter (fun r => negb (P r)) K.
 Let tba := filter (fun n => negb (mem_rule n app)) rs.
 Let S' := put_set S s ds.
+Let D' := dirty_step S (Update s ds) D.
+
+(** what being clean after the step means *)
+Lemma clean_step t : spec_accepts S s ds = true -> clean D' t = true ->
+  clean D t = true /\ (t = s -> f1_step old ds = false /\ f2_set ds = false).
+Proof.
+  intros A. unfold D', dirty_step, dirty2_step, dirty1_step. rewrite A. simpl. fold old.
+  destruct (f1_step old ds) eqn:F1, (f2_set ds) eqn:F2; rewrite ?clean_cons; intro H;
+    repeat match goal with H : _ && _ = true |- _ => apply andb_true_iff in H as [? H] end;
+    (split; [assumption|]); intro E; subst t;
+    repeat match goal with H : negb (Nat.eqb s s) = true |- _ => rewrite Nat.eqb_refl in H; discriminate end;
+    split; reflexivity.
+Qed.
+
+Lemma clean_step_mono t : clean D' t = true -> clean D t = true.
+Proof.
+  unfold D', dirty_step, dirty2_step, dirty1_step.
+  destruct (spec_accepts S s ds && f1_step (get_set S s) ds), (spec_accepts S s ds && f2_set ds);
+    rewrite ?clean_cons; intro H;
+    repeat match goal with H : _ && _ = true |- _ => apply andb_true_iff in H as [_ H] end; exact H.
+Qed.
 
 Lemma upd_keys_rs : NoDup (map rkey rs).
 Proof.
-  apply NoDup_keys_stamp. apply good_dupid. apply set_good_parts in Hgood. tauto.
+  apply NoDup_keys_stamp. apply good_dupid. apply base_good_parts in Hgood. tauto.
 Qed.
 
 Lemma upd_keys_app : NoDup (map rkey app).
-Proof. apply NoDup_map_incl_filter. apply (k_keys _ _ (i_k _ HI)). Qed.
+Proof. apply NoDup_map_incl_filter. apply (k_keys _ _ (i_k _ _ HI)). Qed.
 
 Lemma upd_tbd : to_be_deleted app rs = filter P K.
 Proof.
@@ -304,8 +331,8 @@ Proof.
 Qed.
 
 Lemma upd_del_phase : exists d1, del_rules db (m_del1 fx) (index st) (to_be_deleted app rs) = inl d1 /\
-                                 ReprV d1 (routes K0) /\ ReprF d1.
-Proof. rewrite upd_tbd. apply (del_rules_spec fx K P (index st) (i_k _ HI) (i_v _ HI) (i_f _ HI)). Qed.
+                                 ReprV d1 (routes K0) /\ ReprF (clean D) d1.
+Proof. rewrite upd_tbd. apply (del_rules_spec fx (clean D) K P (index st) (i_k _ _ HI) (i_v _ _ HI) (i_f _ _ HI)). Qed.
 
 Lemma mem_rs r : mem_rule r rs = true <-> r_src r = s /\ In (r_def r) ds.
 Proof. rewrite mem_rule_in. apply in_stamp. Qed.
@@ -340,13 +367,13 @@ Proof.
     + apply mem_rule_false in M. intuition.
   - apply Nat.eqb_neq in E. assert (E' : r_src r <> s) by congruence.
     assert (Hrs : ~ In r rs) by (unfold rs; rewrite in_stamp; intuition).
-    rewrite <- (r_mem _ _ HR r). intuition.
+    rewrite <- (r_mem _ _ _ HR r). intuition.
 Qed.
 
 Lemma upd_keys : NoDup (map rkey (K0 ++ tba)).
 Proof.
   apply NoDup_map_app.
-  - apply NoDup_map_incl_filter. apply (k_keys _ _ (i_k _ HI)).
+  - apply NoDup_map_incl_filter. apply (k_keys _ _ (i_k _ _ HI)).
   - apply NoDup_map_incl_filter. apply upd_keys_rs.
   - intros a b Ha Hb E. apply in_K0 in Ha as [HaK Ha]. apply in_tba in Hb as [Hb HbK].
     assert (Hs : r_src a = s).
@@ -375,48 +402,53 @@ Lemma accepts_parts : spec_accepts S s ds = true <->
   forallb valid_expr (exprs ds) = true /\ keys_ok ds = true /\ not_owned S s ds = true.
 Proof. unfold spec_accepts. rewrite !andb_true_iff. tauto. Qed.
 
-Lemma upd_SInv : spec_accepts S s ds = true -> SInv S'.
+Lemma upd_SInv : spec_accepts S s ds = true -> SInv D' S'.
 Proof.
-  intro A. apply accepts_parts in A as (V & KO & NO). rewrite not_owned_spec in NO.
+  intro A0. pose proof A0 as A. apply accepts_parts in A as (V & KO & NO). rewrite not_owned_spec in NO.
   split.
-  - apply put_set_nodup. apply (s_nodup _ HS).
-  - intros t dt Ht. apply (put_set_in S s ds t dt (s_nodup _ HS)) in Ht as [[E1 E2]|[N Ht]].
+  - apply put_set_nodup. apply (s_nodup _ _ HS).
+  - intros t dt Ht. apply (put_set_in S s ds t dt (s_nodup _ _ HS)) in Ht as [[E1 E2]|[N Ht]].
     + subst. tauto.
-    + apply (s_good _ HS t dt Ht).
+    + apply (s_good _ _ HS t dt Ht).
+  - intros t dt Ht Hc. destruct (clean_step t A0 Hc) as [Hc0 Hs].
+    apply (put_set_in S s ds t dt (s_nodup _ _ HS)) in Ht as [[E1 E2]|[N Ht]].
+    + subst. apply Hs. reflexivity.
+    + apply (s_f2 _ _ HS t dt Ht Hc0).
   - intros t u dt du p Ht Hu N Hp.
-    apply (put_set_in S s ds t dt (s_nodup _ HS)) in Ht as [[E1 E2]|[Nt Ht]];
-    apply (put_set_in S s ds u du (s_nodup _ HS)) in Hu as [[E3 E4]|[Nu Hu]]; subst.
+    apply (put_set_in S s ds t dt (s_nodup _ _ HS)) in Ht as [[E1 E2]|[Nt Ht]];
+    apply (put_set_in S s ds u du (s_nodup _ _ HS)) in Hu as [[E3 E4]|[Nu Hu]]; subst.
     + contradiction.
     + apply (NO u du p Hu Nu Hp).
     + intro Hq. apply (NO t dt p Ht Nt Hq Hp).
-    + apply (s_disj _ HS t u dt du p Ht Hu N Hp).
+    + apply (s_disj _ _ HS t u dt du p Ht Hu N Hp).
 Qed.
 
-Lemma upd_KInv : spec_accepts S s ds = true -> KInv (K0 ++ tba).
+Lemma upd_KInv : spec_accepts S s ds = true -> KInv (K0 ++ tba) /\ btuni (clean D') (routes (K0 ++ tba)).
 Proof.
-  intro A. apply (KInv_of_sets _ S' upd_keys (upd_SInv A)). intros r Hr. apply upd_mem. exact Hr.
+  intro A. apply (KInv_of_sets D' _ S' upd_keys (upd_SInv A)). intros r Hr. apply upd_mem. exact Hr.
 Qed.
 
-Lemma upd_add_phase d1 : ReprV d1 (routes K0) -> ReprF d1 ->
+Lemma upd_add_phase d1 : ReprV d1 (routes K0) ->
   match add_rules d1 tba with
   | inl d2 => (forall x, In x (routes tba) -> rpat x <> None) /\
               ReprV d2 (routes (K0 ++ tba)) /\ uni (routes (K0 ++ tba))
   | inr _ => (exists x, In x (routes tba) /\ rpat x = None) \/ ~ uni (routes (K0 ++ tba))
   end.
 Proof.
-  intros R F. rewrite add_rules_flat, routes_app.
-  apply add_routes_spec; [exact R|]. apply (k_uni _ _ (KInv_filter K _ (i_k _ HI))).
+  intros R. rewrite add_rules_flat, routes_app.
+  apply add_routes_spec; [exact R|]. apply (k_uni _ _ (KInv_filter K _ (i_k _ _ HI))).
 Qed.
 
-Lemma upd_accept d1 : ReprV d1 (routes K0) -> ReprF d1 -> spec_accepts S s ds = true ->
-  exists d2, add_rules d1 tba = inl d2 /\ ReprV d2 (routes (K0 ++ tba)) /\ ReprF d2.
+Lemma upd_accept d1 : ReprV d1 (routes K0) -> ReprF (clean D) d1 -> spec_accepts S s ds = true ->
+  exists d2, add_rules d1 tba = inl d2 /\ ReprV d2 (routes (K0 ++ tba)) /\ ReprF (clean D') d2.
 Proof.
-  intros R F A. pose proof (upd_KInv A) as KI. pose proof (upd_add_phase d1 R F) as Ph.
+  intros R F A. destruct (upd_KInv A) as [KI KB]. pose proof (upd_add_phase d1 R) as Ph.
   destruct (add_rules d1 tba) as [d2|e] eqn:E.
   - exists d2. split; [reflexivity|]. destruct Ph as (_ & R2 & _). split; [exact R2|].
     rewrite add_rules_flat in E.
-    apply (add_routes_flag (routes tba) d1 (routes K0) d2 R (k_uni _ _ (KInv_filter K _ (i_k _ HI))) F E).
-    rewrite <- routes_app. apply (k_bt _ _ KI).
+    apply (add_routes_flag (clean D') (routes tba) d1 (routes K0) d2 R (k_uni _ _ (KInv_filter K _ (i_k _ _ HI)))
+             (ReprF_mono _ _ d1 clean_step_mono F) E).
+    rewrite <- routes_app. exact KB.
   - exfalso. destruct Ph as [(x & Hx & Ex)|N].
     + apply (k_valid _ _ KI x); [|exact Ex]. rewrite routes_app. apply in_app_iff. right. exact Hx.
     + apply N. apply (k_uni _ _ KI).
@@ -431,15 +463,15 @@ Proof.
   - right. apply in_tba. apply mem_rule_false in M. tauto.
 Qed.
 
-Lemma upd_complete d1 d2 : ReprV d1 (routes K0) -> ReprF d1 ->
+Lemma upd_complete d1 d2 : ReprV d1 (routes K0) ->
   add_rules d1 tba = inl d2 -> spec_accepts S s ds = true.
 Proof.
-  intros R F E. pose proof (upd_add_phase d1 R F) as Ph. rewrite E in Ph. destruct Ph as (V & _ & [U KU]).
+  intros R E. pose proof (upd_add_phase d1 R) as Ph. rewrite E in Ph. destruct Ph as (V & _ & [U KU]).
   apply accepts_parts. split; [|split].
   - apply (valid_exprs_routes s). intros x Hx. fold rs in Hx.
     apply in_routes in Hx as (r & Hr & Hx).
     destruct (mem_rule r K) eqn:M.
-    + apply mem_rule_in in M. apply (k_valid _ _ (i_k _ HI)). apply in_routes. exists r. tauto.
+    + apply mem_rule_in in M. apply (k_valid _ _ (i_k _ _ HI)). apply in_routes. exists r. tauto.
     + apply mem_rule_false in M. apply V. apply in_routes. exists r. split; [apply in_tba; tauto | exact Hx].
   - apply keys_ok_spec. intros a b Ha Hb.
     assert (Hex : forall e, In e (exprs ds) -> exists x, In x (routes (K0 ++ tba)) /\ rt_path x = e).
@@ -457,7 +489,7 @@ Proof.
     assert (Hy' : In y (routes (K0 ++ tba))).
     { apply in_routes in Hy as (r & Hr & Hy). apply in_routes. exists r. split; [|exact Hy].
       apply in_stamp in Hr as [Es Hd]. apply in_app_iff. left. apply in_K0. split; [|left; congruence].
-      apply (r_mem _ _ HR). rewrite Es, (in_get_set S t dt (s_nodup _ HS) Ht). exact Hd. }
+      apply (r_mem _ _ _ HR). rewrite Es, (in_get_set S t dt (s_nodup _ _ HS) Ht). exact Hd. }
     pose proof (U x y p Hx' Hy' Hpx Hpy) as Es.
     apply in_routes_rule in Hx, Hy. apply in_stamp in Hx as [Ex _]. apply in_stamp in Hy as [Ey _].
     unfold rt_src in Es. congruence.
@@ -483,30 +515,31 @@ Lemma upd_tba_stamp : tba = stamp s (filter (fun d => negb (unchanged_in old d))
 Proof.
   rewrite stamp_filter. unfold tba. apply filter_ext_in. intros r Hr. f_equal.
   apply bool_eq_iff. rewrite mem_rule_in, unchanged_in_spec. unfold app. rewrite filter_In.
-  apply in_stamp in Hr as [Es _]. unfold old. rewrite <- Es. rewrite <- (r_mem _ _ HR r).
+  apply in_stamp in Hr as [Es _]. unfold old. rewrite <- Es. rewrite <- (r_mem _ _ _ HR r).
   unfold from_src. rewrite Nat.eqb_eq. tauto.
 Qed.
 
-Lemma upd_kept_stamp q :
+Lemma upd_kept_stamp q (Hcs : clean D s = true) :
   at_q q (routes (filter (fun r => mem_rule r rs) app)) =
   at_q q (routes (stamp s (filter (unchanged_in ds) old))).
 Proof.
-  rewrite routes_filter, at_q_filter. unfold app, K. rewrite (r_ord _ _ HR s q). fold old.
+  rewrite routes_filter, at_q_filter. unfold app, K. rewrite (r_ord _ _ _ HR s q Hcs). fold old.
   rewrite <- at_q_filter, <- (routes_filter (fun r => mem_rule r rs)). f_equal. f_equal.
   rewrite stamp_filter. apply filter_ext_in. intros r Hr.
   apply bool_eq_iff. rewrite mem_rs, unchanged_in_spec. apply in_stamp in Hr. tauto.
 Qed.
 
-Lemma upd_ord : f1_step old ds = false ->
-  forall t q, at_q q (routes (filter (from_src t) (K0 ++ tba))) = at_q q (routes (stamp t (get_set S' t))).
+Lemma upd_ord : spec_accepts S s ds = true ->
+  forall t q, clean D' t = true ->
+    at_q q (routes (filter (from_src t) (K0 ++ tba))) = at_q q (routes (stamp t (get_set S' t))).
 Proof.
-  intros F1 t q. unfold S'. rewrite get_put_set, filter_app.
+  intros A t q Hc. unfold S'. rewrite get_put_set, filter_app.
   destruct (Nat.eqb s t) eqn:E.
-  - apply Nat.eqb_eq in E. subst t.
+  - apply Nat.eqb_eq in E. subst t. destruct (clean_step s A Hc) as [Hcs HF]. destruct (HF eq_refl) as [F1 _].
     assert (Et : filter (from_src s) tba = tba).
     { apply filter_all_true. intros r Hr. apply in_tba in Hr as [Hr _]. apply in_stamp in Hr as [Es _].
       unfold from_src. apply Nat.eqb_eq. exact Es. }
-    rewrite Et, upd_from_s_K0, routes_app, at_q_app, upd_kept_stamp, upd_tba_stamp.
+    rewrite Et, upd_from_s_K0, routes_app, at_q_app, (upd_kept_stamp q Hcs), upd_tba_stamp.
     rewrite <- at_q_app, <- routes_app, <- stamp_app.
     set (kept := filter (unchanged_in ds) old). set (moved := filter (fun d => negb (unchanged_in old d)) ds).
     destruct (mem_pat q (pats ds)) eqn:M.
@@ -524,7 +557,7 @@ Proof.
     assert (Et : filter (from_src t) tba = []).
     { apply filter_all_false. intros r Hr. apply in_tba in Hr as [Hr _]. apply in_stamp in Hr as [Es _].
       unfold from_src. apply Nat.eqb_neq. congruence. }
-    rewrite Et, app_nil_r, upd_from_t_K0; [|congruence]. apply (r_ord _ _ HR t q).
+    rewrite Et, app_nil_r, upd_from_t_K0; [|congruence]. apply (r_ord _ _ _ HR t q (clean_step_mono t Hc)).
 Qed.
 
 End Update.
